@@ -672,19 +672,26 @@ def generate(ctx):
             yield "pdf_model", {"pole": pole, "res": res, "sigma": sigma, "vs": vs,
                                 "w": [1.0] * nv if w is None else w}
     # folded densities
-    per = 2 if quick else 12
+    per = 3 if quick else 12
     for gname in GROUPS:
         Gsize = group_by_name(gname).size
         for k in range(per):
             nv = int(rng.integers(20, 120))
             # general position: C07 makes the projection constant on orbits only off the sector boundaries
             vs = gen_cloud(rng, nv, texture=bool(k % 2), special=False)
+            if k % 3 == 2:
+                # close to (but off) the coordinate planes: relative distance 1e-5 .. 3e-3
+                a = np.array(vs)
+                ax = rng.integers(3, size=nv)
+                a[np.arange(nv), ax] = rng.choice([-1, 1], nv) * 10.0 ** rng.uniform(-5, -2.5, nv) * np.linalg.norm(a, axis=1)
+                vs = [[float(x) for x in r] for r in a]
             w = gen_weights(rng, nv) or [1.0] * nv
             ops = [int(x) for x in rng.integers(Gsize, size=nv)]
             res = [10.0, 5.0, 15.0][k % 3]
             sigma = [5.0, 2.5, 10.0, 0.5][k % 4]
             c = {"group": gname, "vs": vs, "w": w, "ops": ops, "res": res, "sigma": sigma, "mrd": bool(k % 2 == 0)}
-            ctx.count(f"pdf_symmetry/{gname}", ("ps", gname, vs, ops), nontrivial=Gsize > 1)
+            ctx.count(f"pdf_symmetry/{gname}/{'nearplane' if k % 3 == 2 else 'generic'}", ("ps", gname, vs, ops),
+                      nontrivial=Gsize > 1)
             yield "pdf_symmetry", c
 
 
